@@ -106,6 +106,10 @@ pub fn note_alloc(kind: u32, ptr: usize, size: usize) {
             exec().access(ptr as u64, true, "snapshot_free");
         }
     }
+    if d > 0 && TRACE.load(Ordering::Relaxed) == 2 {
+        let m = if kind == 1 { b"DEALLOC-IN-HANDLER\n" as &[u8] } else { b"ALLOC-IN-HANDLER\n" as &[u8] };
+        if !ie { unsafe { libc::write(2, m.as_ptr() as *const _, m.len()); } }
+    }
     if d > 0 && !ie {
         ALLOC_IN_HANDLER.fetch_add(1, Ordering::Relaxed);
         ALLOC_IN_HANDLER_KIND.store(kind, Ordering::Relaxed);
@@ -329,6 +333,11 @@ pub struct Opts {
     /// store with release semantics), before the code that follows it runs: an access through a
     /// reference obtained earlier ("publish, then touch") becomes explorable
     pub post_points: bool,
+    /// do not stop an execution at a data race (the check at hand judges what happens next)
+    pub no_race_check: bool,
+    /// the start of every thread body is a scheduling point of its own (for bodies that do visible
+    /// things - dropping an Arc, closing a descriptor - before their first hooked operation)
+    pub start_points: bool,
 }
 
 pub trait Monitor {
@@ -1434,8 +1443,8 @@ static HOOKS: shim::Hooks = shim::Hooks {
 };
 
 pub fn install_hooks() {
-    if std::env::var("VERIF_TRACE").is_ok() {
-        TRACE.store(1, Ordering::Relaxed);
+    if let Ok(v) = std::env::var("VERIF_TRACE") {
+        TRACE.store(if v == "alloc" { 2 } else { 1 }, Ordering::Relaxed);
     }
     shim::install(&HOOKS);
 }
@@ -1685,6 +1694,12 @@ fn model_thread<S: Sync + Send + 'static>(sc: usize, st: std::sync::Arc<S>, i: u
     exec().threads[me].pending = Pending::Op;
     exec().push_ev("thread_start", me as u64, 0);
     IN_ENGINE.with(|c| c.set(false));
+    // The start of the body is a scheduling point of its own: code a body runs before its first
+    // hooked operation (dropping an Arc, closing a descriptor) must be placeable after other
+    // threads' steps, not executed "at time zero" while the threads are primed.
+    if sc.opts.start_points {
+        hook_sched_point("thread_body_start", me as u64);
+    }
     let r = std::panic::catch_unwind(std::panic::AssertUnwindSafe(|| (ts.body)(&st)));
     IN_ENGINE.with(|c| c.set(true));
     check_alloc_flag();
@@ -1736,6 +1751,9 @@ pub fn run_one<S: Sync + Send + 'static>(sc: &Scenario<S>, choices: &[u32], keep
     }
     if sc.opts.no_discipline {
         ex.handler_discipline = false;
+    }
+    if sc.opts.no_race_check {
+        ex.race_check = false;
     }
     ALLOC_IN_HANDLER.store(0, Ordering::Relaxed);
     if let Some(p) = progress() {
